@@ -435,7 +435,7 @@ class Env:
         self._hook_raises("log")
 
     # ------------------------------------------------------------------ budget
-    def make_budget(self, tokens: int):
+    def make_budget(self, tokens: int, window: int = 100000):
         from redress.budget import Budget
 
         env = self
@@ -443,11 +443,11 @@ class Env:
         class SpyBudget(Budget):
             def consume(self, cost: int = 1) -> bool:  # delegates to the real method
                 ok = super().consume(cost)
-                env.trace.append({"e": "consume", "ok": bool(ok), "t": env.now()})
+                env.trace.append({"e": "consume", "ok": bool(ok), "t": env.now(), "at": env.clock.now})
                 return ok
 
         with vtime.use_clock(self.clock):
-            return SpyBudget(max_retries=tokens, window_s=1e6)
+            return SpyBudget(max_retries=tokens, window_s=window * vtime.TICK)
 
     # ------------------------------------------------------------------ delivery views
     def _view(self, **kw) -> dict:
@@ -535,7 +535,7 @@ def retry_kwargs(env: Env, cfg: dict, *, place: str = "call") -> tuple[dict, dic
         max_attempts=cfg["maxAtt"],
         max_unknown_attempts=None if cfg["maxUnk"] == NONE else cfg["maxUnk"],
         per_class_max_attempts={env._ec(k): n for k, n in cfg["lim"].items() if n != NONE} or None,
-        budget=env.make_budget(cfg["budget"]) if cfg["budget"] != NONE else None,
+        budget=env.make_budget(cfg["budget"], cfg.get("bW", 100000)) if cfg["budget"] != NONE else None,
     )
     _ = EC
     call: dict[str, Any] = dict(
@@ -661,9 +661,12 @@ def run_scenario(cfg: dict, events: list[dict], *, entry: str, perm=None, place:
     if hooks:
         call.update(on_attempt_start=env.astart, on_attempt_end=env.aend)
     with vtime.use_clock(env.clock):
-        invoke = make_entry(entry, env, ctor, call)
+        # two policy objects built from the same arguments share the budget; runs alternate
+        invokers = [make_entry(entry, env, ctor, call), make_entry(entry, env, ctor, call)]
         for ci, run in enumerate(split_runs(events)):
-            mode = force_mode or next((e["mode"] for e in run if e["e"] == "deliver"), "exec")
+            invoke = invokers[ci % 2]
+            dl = next((e for e in run if e["e"] == "deliver"), {})
+            mode = force_mode or dl.get("mode", "exec")
             env.call_index = ci
             env.start_run()
             tl = None
@@ -684,5 +687,8 @@ def run_scenario(cfg: dict, events: list[dict], *, entry: str, perm=None, place:
                      "k": env._cname(te.error_class) if te.error_class is not None else "-",
                      "stop": te.stop_reason.value if te.stop_reason is not None else "-",
                      "cause": te.cause if te.cause is not None else "-"} for te in tl.events]})
-            env.trace.append({"e": "deliver", "mode": mode, "v": view, "t": env.now()})
+            gap = dl.get("gap", 0)
+            env.trace.append({"e": "deliver", "mode": mode, "v": view, "t": env.now(), "gap": gap})
+            if gap:
+                env.clock.advance(gap)
     return env.trace
